@@ -14,6 +14,7 @@ CONSTANTS
   PVals = {1}
   LVals = {0, 1}
   ForbSets = {{}}
+  Inits = {1}
   Layouts = {11}
 INVARIANT Consistent
 PROPERTY LimitsRespected
